@@ -77,6 +77,10 @@ type Env struct {
 	BlockHookSaw    []string
 	BlockHookPause  int // block hook returns ErrPaused at this block index (1-based), 0 never
 	BlockHookErrAt  int
+	// BlockHookDo, when set, runs inside every incoming-block hook call (on the
+	// executor's goroutine) before the hook's verdict is taken: a hook that is
+	// slow, or that itself cancels / pauses
+	BlockHookDo func(index int)
 	MaxLinksPerReq  uint64
 	NetErrs         int
 	Protects        map[string]int
@@ -175,6 +179,9 @@ func (e *Env) ProcessBlockHooks(p peer.ID, response graphsync.ResponseData, bloc
 	e.BlockHookCalls++
 	// what the hook is shown about the response (must stem from the request's own peer)
 	e.BlockHookSaw = append(e.BlockHookSaw, fmt.Sprintf("%d/%d", response.Status(), response.Metadata().Length()))
+	if e.BlockHookDo != nil {
+		e.BlockHookDo(int(block.Index()))
+	}
 	if e.BlockHookErrAt != 0 && int(block.Index()) == e.BlockHookErrAt {
 		return hooks.UpdateResult{Err: fmt.Errorf("stub: block hook error")}
 	}
